@@ -9,7 +9,7 @@ use std::rc::Rc;
 use encoding_rs::{DecoderResult, Encoding};
 use serde_json::{json, Value};
 use tendril::stream::{LossyDecoder, TendrilSink, Utf8LossyDecoder};
-use tendril::{fmt, ByteTendril, StrTendril, Tendril};
+use tendril::{fmt, ByteTendril, IncompleteUtf8, StrTendril, Tendril};
 
 use crate::model::{ModelSink, SinkPolicy};
 use crate::rng::{fnv1a, mix, Rng};
@@ -581,6 +581,11 @@ fn chunks_of(c: &BCase) -> Vec<ByteTendril> {
 /// The three ways the provided `TendrilSink` methods let a caller hand chunks over: process() for
 /// each and finish(); process() for all but the last and `one(last)`; `from_iter(all)`.
 fn feed_all<S: TendrilSink<fmt::Bytes>>(mut d: S, mut chunks: Vec<ByteTendril>, how: usize) -> S::Output {
+    if how % 11 == 7 {
+        // the producer reports an error of its own through the decoder (a transport hiccup): it has
+        // to reach the consumer like any other (counted by the caller as one more expected error)
+        d.error("reported by the producer".into());
+    }
     match how % 3 {
         1 if !chunks.is_empty() => {
             let last = chunks.pop().unwrap();
@@ -597,6 +602,30 @@ fn feed_all<S: TendrilSink<fmt::Bytes>>(mut d: S, mut chunks: Vec<ByteTendril>, 
             d.finish()
         },
     }
+}
+
+/// The do-it-yourself streaming decoder `tendril` exports next to `Utf8LossyDecoder`:
+/// `ByteTendril::decode_utf8_lossy` per chunk, and `IncompleteUtf8::try_complete` to splice what a
+/// chunk left unfinished with the next one (this API pushes U+FFFD itself and has no error channel).
+fn manual_utf8_decode(mut sink: RecSink, chunks: Vec<ByteTendril>) {
+    let mut pending: Option<IncompleteUtf8> = None;
+    for mut ch in chunks {
+        if let Some(mut inc) = pending.take() {
+            match inc.try_complete(ch, |t| sink.process(t)) {
+                Ok(rest) => ch = rest,
+                Err(()) => {
+                    // the whole chunk went into the pending sequence and it is still unfinished
+                    pending = Some(inc);
+                    continue;
+                },
+            }
+        }
+        pending = ch.decode_utf8_lossy(|t| sink.process(t));
+    }
+    if pending.is_some() {
+        sink.process(StrTendril::from_slice("\u{fffd}"));
+    }
+    sink.finish();
 }
 
 fn model_sink() -> ModelSink {
@@ -640,18 +669,35 @@ fn run(c: &BCase, stats: &mut Stats) -> Result<u64, Violation> {
             let rec = Rc::new(RefCell::new(Rec::default()));
             let sink = RecSink { rec: rec.clone() };
             let mut io_err = false;
+            let mut errors_na = false;
+            let mut producer_errors = 0u64;
             match &c.delivery {
                 Delivery::Process { .. } => {
                     let chunks = chunks_of(c);
                     stats.add("F8_byte_chunks_delivered", chunks.len() as u64);
                     let how = chunks.len() + c.bytes.len() / 2;
                     stats.inc(["chunks_handed_over_by_process_finish", "chunks_handed_over_by_process_then_one", "chunks_handed_over_by_from_iter"][how % 3]);
-                    if c.encoding == "utf-8" && c.decoder_kind == 0 && c.bytes.len() % 2 == 0 {
+                    if c.encoding == "utf-8" && c.decoder_kind == 0 && c.bytes.len() % 4 == 1 && !reenter {
+                        stats.inc("chunks_decoded_by_hand_with_decode_utf8_lossy_and_try_complete");
+                        errors_na = true;
+                        manual_utf8_decode(sink, chunks);
+                    } else if c.encoding == "utf-8" && c.decoder_kind == 0 && c.bytes.len() % 2 == 0 {
+                        producer_errors = (how % 11 == 7) as u64;
                         feed_all(Utf8LossyDecoder::new(sink), chunks, how);
                     } else {
+                        producer_errors = (how % 11 == 7) as u64;
                         let enc = Encoding::for_label(c.encoding.as_bytes()).expect("label");
-                        feed_all(make_lossy(enc, c.decoder_kind, sink), chunks, how);
+                        let mut d = make_lossy(enc, c.decoder_kind, sink);
+                        if how % 13 == 5 {
+                            // the accessors hand out the consumer itself
+                            d.inner_sink_mut().rec.borrow_mut().pieces += 0;
+                            if !Rc::ptr_eq(&d.inner_sink().rec, &rec) {
+                                return Err(Violation::new("inner-sink-accessor", "inner_sink() is not the sink the decoder was built with".into()));
+                            }
+                        }
+                        feed_all(d, chunks, how);
                     }
+                    stats.add("errors_reported_by_the_producer_through_the_decoder", producer_errors);
                 },
                 Delivery::FromFile { .. } => {
                     let (_, path, delete) = file_source(c).expect("file source checked by the caller");
@@ -722,13 +768,13 @@ fn run(c: &BCase, stats: &mut Stats) -> Result<u64, Violation> {
             if r.text != want_text {
                 return Err(Violation::new("decoded-text-differs", format!("{}: delivered {:?}, one-shot lossy decode {:?}", c.encoding, first_diff_ctx(&r.text, &want_text), first_diff_ctx(&want_text, &r.text))));
             }
-            if r.errors != want_errs {
+            if r.errors != want_errs + producer_errors && !errors_na {
                 return Err(Violation::new("error-count-differs", format!("{}: {} error() calls, {} replacements expected", c.encoding, r.errors, want_errs)));
             }
             if !r.finished {
                 return Err(Violation::new("inner-sink-not-finished", "finish() did not reach the inner sink".into()));
             }
-            Ok(mix(fnv1a(r.text.as_bytes()), r.errors))
+            Ok(mix(fnv1a(r.text.as_bytes()), r.errors - producer_errors.min(r.errors)))
         },
         "html" | "xml" => {
             let is_html = c.pipeline == "html";
